@@ -480,7 +480,6 @@ func (f *Free) scriptedRound(limit int) {
 			for i := range order {
 				order[i] = i
 			}
-			f.rng.Shuffle(0, func(i, j int) {})
 		}
 	}
 	reqs := append([]*PReq(nil), f.pending...)
